@@ -208,7 +208,7 @@ Verdict run_tmr(const Plan &p, Cov &cov, bool verbose, bool preemptive) {
     Verdict v = r.run(); g_run = nullptr; return v;
 }
 
-const std::vector<uint32_t> FREQS = {100, 1000, 10000, 1000000, 300, 1500, 44100, 250, 8000};
+const std::vector<uint32_t> FREQS = {100, 1000, 10000, 1000000, 300, 1500, 44100, 250, 8000, 1000, 1000000, 40000000, 65536000, 72000000, 100000000, 168000000};   // up to the timer clocks of current microcontrollers (freq / unit beyond 16 bit)
 const std::vector<int64_t> TVALS = {0, 1, 1, 2, 2, 3, 3, 5, 7, 4, 6, 10, 1000, 0x80000000ll, 0xffffffffll, 65536, 65537, 70000, 131075};
 
 Plan gen_tmr(Rng &r, bool thorough, bool preemptive) {
@@ -220,8 +220,8 @@ Plan gen_tmr(Rng &r, bool thorough, bool preemptive) {
         Op o; int k = r.weighted(wts);
         if (k == 0) { int64_t st = r.pick(TVALS), cy = r.chance(1, 2) ? 0 : r.pick(TVALS); if (r.chance(1, 10)) st = 0;
             int script = r.chance(1, 4) ? (int)r.range(1, 3) : 0; int64_t sarg = script == 3 ? (int64_t)(r.below(6) | r.below(4) << 8) : (int64_t)r.below(8);
-            if (preemptive && cy > 1000) cy &= 7;
-            if (preemptive && st > 1000 && !(st < 200000 && r.chance(1, 2))) st &= 7;   // long start delays (beyond 16 bit) stay possible, huge ones only in the strict regime
+            if (preemptive && cy > 1000 && !(cy >= 0x80000000ll && r.chance(1, 3))) cy &= 7;   // periods of 2^31 ticks and more stay possible (65535 ms on a 40 MHz timer clock is 0x9C3F63C0 ticks)
+            if (preemptive && st > 1000 && !(st < 200000 && r.chance(1, 2)) && !(st >= 0x80000000ll && r.chance(1, 3))) st &= 7;   // long start delays (beyond 16 bit) stay possible, huge ones only in the strict regime
             o = Op("create", {st, cy, script, sarg}); handles++; }
         else if (k == 1) { o = Op("delete", {r.chance(1, 8) ? -(int64_t)r.range(1, 8) : (int64_t)r.below((uint32_t)std::max(1, handles + 1))}); }
         else if (k == 2) { int64_t n = r.chance(1, 12) ? r.pick(TVALS) : r.range(1, 4); if (preemptive && n > 1000) n = r.chance(1, 3) ? n % 140000 : 3; o = Op("tick", {n}); }
